@@ -395,6 +395,29 @@ func rulesC13(e *Engine, r *Report) {
 		r.Min("R13.6", "headers read by the validating wrapper", len(common), 2)
 	}
 
+	// ---------------------------------------------------------------- R13.7
+	r.Rule("R13.7", "separator conversion of path-valued descriptor fields: when a separator is announced the decoder rewrites every part's Name and Prev from the sender's separator to the receiver's (split on the announced separator, joined with the native one); frozen list of converted fields = {Name, Prev} (Renamed is not converted today - recorded as an observation, not a finding: no failing input on this platform)")
+	if fn := needFn(e, r, "R13.7", "payload.NewDecoder"); fn != nil {
+		for _, fld := range []string{"Name", "Prev"} {
+			m := "&new(payload.Decoder).meta[§]." + fld
+			got := e.findInstrs(fn, "store("+m+" = call(filepath.Join)(call(strings.Split)("+m+", p1)))", false)
+			ok := len(got) == 1
+			if ok {
+				ok = hasStr(e.domConds(got[0].Block()), `(p1 != "")`)
+			}
+			r.Check(ok, "R13.7", "payload.NewDecoder: part."+fld+" converted from the sender's separator", e.Pos(fn.Pos()),
+				"a path-valued descriptor field is no longer converted to the receiver's separator: a peer with another separator announces names the receiver never sees as files (an in-order successor waits for ever on such a predecessor)", 1)
+		}
+	}
+	for _, spec := range []struct{ fn, what, p string }{
+		{"http.(*Server).routeValidate", "polled names are converted with the announced separator", "store(var(files)[§].Name = call(filepath.Join)(call(strings.Split)(var(files)[§].Name, call(http.(Header).Get)(p2.Header, " + e.constOr("http", "HeaderSep") + "))))"},
+		{"http.(*Client).Validate", "answered names are converted back with the server's separator", "call(filepath.Join)(call(strings.Split)(§, call(http.(Header).Get)(§.Header, " + e.constOr("http", "HeaderSep") + ")))"},
+	} {
+		if fn := needFn(e, r, "R13.7", spec.fn); fn != nil {
+			r.Check(len(e.findInstrs(fn, spec.p, false)) == 1, "R13.7", spec.fn+": "+spec.what, e.Pos(fn.Pos()), "the poll route no longer converts names between the peers' separators", 1)
+		}
+	}
+
 	// ---------------------------------------------------------------- R13.8
 	r.Rule("R13.8", "the encoder keeps the frame: for each part it seeks to the part's beg and every Read reports min(len(buffer), bytes left of the part) - a count derived only from the part's declared extent and the buffer, never from what the file happened to yield -, advances the part's progress by that count and moves to the next part when the declared extent is used up; so a part always occupies exactly end-beg bytes on the wire")
 	if fn := needFn(e, r, "R13.8", "payload.(*Encoder).Read"); fn != nil {
